@@ -303,6 +303,7 @@ func (s *Server) isCurrentDocVersion(docURI protocol.DocumentURI, version uint64
 // change can only publish after it, so the newest content always has the last word.
 // Version 0 means "unversioned" and is always published.
 func (s *Server) publishIfCurrent(ctx context.Context, docURI protocol.DocumentURI, version uint64, diagnostics []protocol.Diagnostic) {
+	defer verifYield(ctx, docURI, version)()
 	s.publishMu.Lock()
 	defer s.publishMu.Unlock()
 	if version != 0 && !s.isCurrentDocVersion(docURI, version) {
